@@ -138,7 +138,11 @@ func (c *lcClient) onMsg(m RecvMsg) {
 
 // serveWork offers one work connection and services it when started.
 func (c *lcClient) serveWork(alive bool) {
-	conn, err := c.OfferWorkConn(c.RunID, true, c.Opts.Token)
+	key := c.Opts.Token
+	if c.Opts.RawKeys {
+		key = c.Opts.LoginKey
+	}
+	conn, err := c.OfferWorkConn(c.RunID, true, key)
 	if err != nil {
 		return
 	}
